@@ -80,11 +80,15 @@ variable {V : Type} [DecidableEq V] {n : ℕ} {R : Type} [Inhabited R] [CommRing
 def zeroPairs (a : Aut V) (o : AccOpts) (v : V) : List (String × DMat n n R) :=
   if o.asStart || a.starts.contains v then [("", DMat.one)] else []
 
+theorem joinW_simple {ρ : Rep n R} (hp : ρ.parseSimple = true) (a b : String) :
+    ρ.joinW a b = a ++ b := by
+  simp [joinW, hp]
+
 /-- what one edge `(w, l)` contributes, given the pairs `r` of the neighbour and the edge
 element `e` -/
-def extendPairs (o : AccOpts) (l : String) (e : DMat n n R) (r : List (String × DMat n n R)) :
-    List (String × DMat n n R) :=
-  r.map fun sM => (if o.asStart then l ++ sM.1 else sM.1 ++ l,
+def extendPairs (ρ : Rep n R) (o : AccOpts) (l : String) (e : DMat n n R)
+    (r : List (String × DMat n n R)) : List (String × DMat n n R) :=
+  r.map fun sM => (if o.asStart then ρ.joinW l sM.1 else ρ.joinW sM.1 l,
                    if o.asStart then e.mul sM.2 else sM.2.mul e)
 
 /-- memo-free specification of `_automaton_accepted` for a given state: the list of
@@ -96,7 +100,7 @@ def accSpec (ρ : Rep n R) (a : Aut V) (o : AccOpts) : Nat → V → M? (List (S
     let parts ← edges.mapM fun wl => do
       let r ← accSpec ρ a o k wl.1
       let e ← ρ.edgeElt o wl.2
-      pure (extendPairs o wl.2 e r)
+      pure (extendPairs ρ o wl.2 e r)
     pure ((if o.maxlen then zeroPairs a o v else []) ++ parts.flatten)
 
 /-- the specification for an optional state: `None` means "as start, from
@@ -174,7 +178,7 @@ def accBody (ρ : Rep n R) (o : AccOpts)
     M? (List (DMat n n R) × List String × Memo V n R) := do
   let (r, memo') ← recur o (some vl.1) acc.2.2
   let ws := if o.withWords then
-      (if o.asStart then r.words.map (vl.2 ++ ·) else r.words.map (· ++ vl.2))
+      (if o.asStart then r.words.map (ρ.joinW vl.2 ·) else r.words.map (ρ.joinW · vl.2))
     else []
   let e ← ρ.edgeElt o vl.2
   let ms := if o.asStart then r.mats.map (e.mul ·) else r.mats.map (·.mul e)
@@ -225,7 +229,7 @@ def specBody (ρ : Rep n R) (a : Aut V) (o : AccOpts) (k : Nat) (wl : V × Strin
     M? (List (String × DMat n n R)) := do
   let r ← ρ.accSpec a o k wl.1
   let e ← ρ.edgeElt o wl.2
-  pure (extendPairs o wl.2 e r)
+  pure (extendPairs ρ o wl.2 e r)
 
 theorem accSpec_zero (ρ : Rep n R) (a : Aut V) (o : AccOpts) (v : V) :
     ρ.accSpec a o 0 v = .ok (zeroPairs a o v) := rfl
@@ -236,17 +240,18 @@ theorem accSpec_succ (ρ : Rep n R) (a : Aut V) (o : AccOpts) (k : Nat) (v : V) 
       let parts ← edges.mapM (ρ.specBody a o k)
       pure ((if o.maxlen then zeroPairs a o v else []) ++ parts.flatten)) := rfl
 
-theorem extendPairs_snd (o : AccOpts) (l : String) (e : DMat n n R)
+theorem extendPairs_snd (ρ : Rep n R) (o : AccOpts) (l : String) (e : DMat n n R)
     (r : List (String × DMat n n R)) :
-    (extendPairs o l e r).map Prod.snd =
+    (extendPairs ρ o l e r).map Prod.snd =
       if o.asStart then (r.map Prod.snd).map (e.mul ·) else (r.map Prod.snd).map (·.mul e) := by
   unfold extendPairs
   cases o.asStart <;> simp [List.map_map, Function.comp_def]
 
-theorem extendPairs_fst (o : AccOpts) (l : String) (e : DMat n n R)
+theorem extendPairs_fst (ρ : Rep n R) (o : AccOpts) (l : String) (e : DMat n n R)
     (r : List (String × DMat n n R)) :
-    (extendPairs o l e r).map Prod.fst =
-      if o.asStart then (r.map Prod.fst).map (l ++ ·) else (r.map Prod.fst).map (· ++ l) := by
+    (extendPairs ρ o l e r).map Prod.fst =
+      if o.asStart then (r.map Prod.fst).map (ρ.joinW l ·)
+      else (r.map Prod.fst).map (ρ.joinW · l) := by
   unfold extendPairs
   cases o.asStart <;> simp [List.map_map, Function.comp_def]
 
@@ -259,7 +264,7 @@ theorem bind_ok {α β : Type} {m : M? α} {f : α → M? β} {y : β} (h : (m >
 theorem specBody_ok {ρ : Rep n R} {a : Aut V} {o : AccOpts} {k : Nat} {wl : V × String}
     {part : List (String × DMat n n R)} (h : ρ.specBody a o k wl = .ok part) :
     ∃ r e, ρ.accSpec a o k wl.1 = .ok r ∧ ρ.edgeElt o wl.2 = .ok e ∧
-      part = extendPairs o wl.2 e r := by
+      part = extendPairs ρ o wl.2 e r := by
   unfold specBody at h
   obtain ⟨r, hr, h⟩ := bind_ok h
   obtain ⟨e, he, h⟩ := bind_ok h
@@ -285,8 +290,8 @@ theorem accBody_ok (ρ : Rep n R) (o : AccOpts)
     (r : List (String × DMat n n R)) (e : DMat n n R)
     (hr : recur o (some w) memo = .ok (toRes o r, memo1)) (he : ρ.edgeElt o l = .ok e) :
     ρ.accBody o recur (ms, ws, memo) (w, l) =
-      .ok (ms ++ (extendPairs o l e r).map Prod.snd,
-           ws ++ (if o.withWords then (extendPairs o l e r).map Prod.fst else []), memo1) := by
+      .ok (ms ++ (extendPairs ρ o l e r).map Prod.snd,
+           ws ++ (if o.withWords then (extendPairs ρ o l e r).map Prod.fst else []), memo1) := by
   unfold accBody
   simp only [hr, he, bind, Except.bind, pure, Except.pure]
   rw [extendPairs_snd, extendPairs_fst]
@@ -350,20 +355,20 @@ theorem foldlM_agrees (ρ : Rep n R) (a : Aut V) (o : AccOpts) (k : Nat)
       | ok e =>
         rw [accBody_ok ρ o recur ms ws memo memo1 w l r e hr he]
         have ih := foldlM_agrees ρ a o k recur hrec rest
-          (ms ++ (extendPairs o l e r).map Prod.snd)
-          (ws ++ (if o.withWords then (extendPairs o l e r).map Prod.fst else [])) memo1 hm1
+          (ms ++ (extendPairs ρ o l e r).map Prod.snd)
+          (ws ++ (if o.withWords then (extendPairs ρ o l e r).map Prod.fst else [])) memo1 hm1
         change match (do
             let ys ← rest.mapM (ρ.specBody a o k)
-            pure (extendPairs o l e r :: ys) : M? _) with
+            pure (extendPairs ρ o l e r :: ys) : M? _) with
           | .ok parts => ∃ memo', rest.foldlM (ρ.accBody o recur)
-                (ms ++ (extendPairs o l e r).map Prod.snd,
-                 ws ++ (if o.withWords then (extendPairs o l e r).map Prod.fst else []), memo1) =
+                (ms ++ (extendPairs ρ o l e r).map Prod.snd,
+                 ws ++ (if o.withWords then (extendPairs ρ o l e r).map Prod.fst else []), memo1) =
                 .ok (ms ++ parts.flatten.map Prod.snd,
                  ws ++ (if o.withWords then parts.flatten.map Prod.fst else []), memo')
               ∧ MemoOK ρ a o memo'
           | .error err => rest.foldlM (ρ.accBody o recur)
-                (ms ++ (extendPairs o l e r).map Prod.snd,
-                 ws ++ (if o.withWords then (extendPairs o l e r).map Prod.fst else []), memo1) =
+                (ms ++ (extendPairs ρ o l e r).map Prod.snd,
+                 ws ++ (if o.withWords then (extendPairs ρ o l e r).map Prod.fst else []), memo1) =
                 .error err
         cases hrest : rest.mapM (ρ.specBody a o k) with
         | error err =>
